@@ -11,7 +11,7 @@ import (
 func init() {
 	register(&Check{
 		ID: "C09", Level: "exploration", QuickSecs: 170, ThoroughSecs: 1500,
-		Rule:        "grammars S <- body ; A <- ... ; B <- ... where body ranges over all expressions (nested choices and sequences allowed) over {'a','b',\"ab\",'a'i,[ab],[^a],[^b],[b]i,.,A,B} x {?,*,+,&,!} up to N nodes (4; thorough adds every 11th 5-node body), A and B over the leaf-rule bodies {'a', \"ab\", [ab], 'a' 'b', 'a'/'b', [^a], x:'a'{act}, 'b'i}; every single label+action decoration of the body; a two-site family (one leaf rule - class with range, class, literal - inlined at two places next to DIFFERENT neighbours the optimizer merges it with, 4 shapes, inputs over {a,b,c}); a same-name label family (labelled leaf rule inlined next to equally named labels of the enclosing rule, 6 shapes); a recovery family (leaf rules referenced inside and outside recovery operators and throws, 6 shapes x 4 leaf rules); every subset of {A,B} as -alternate-entrypoints and every usable entrypoint at run time; all inputs over {a,b} up to L=3 (4). Unoptimized build vs -optimize-grammar build (real vs real) and both vs the reference: same success, same consumed prefix, same action invocations (id, pos, text, flat label values) in the same order, same flat value (regrouping of action-less structure is invisible, action-made values are not). Non-trivial = the optimizer changed the emitted grammar (expression count differs) and the input is matched or backtracks.",
+		Rule:        "grammars S <- body ; A <- ... ; B <- ... where body ranges over all expressions (nested choices and sequences allowed) over {'a','b',\"ab\",'a'i,[ab],[^a],[^b],[b]i,.,A,B} x {?,*,+,&,!} up to N nodes (4; thorough adds every 11th 5-node body), A and B over the leaf-rule bodies {'a', \"ab\", [ab], 'a' 'b', 'a'/'b', [^a], x:'a'{act}, 'b'i}; every single label+action decoration of the body; a two-site family (one leaf rule - class with range, class, literal - inlined at two places next to DIFFERENT neighbours the optimizer merges it with, 4 shapes, inputs over {a,b,c}); a same-name label family (labelled leaf rule inlined next to equally named labels of the enclosing rule, 6 shapes); a wide-choice family (5 alternatives: a mergeable pair at every position among unmergeable ones); a recovery family (leaf rules referenced inside and outside recovery operators and throws, 6 shapes x 4 leaf rules); every subset of {A,B} as -alternate-entrypoints and every usable entrypoint at run time; all inputs over {a,b} up to L=3 (4). Unoptimized build vs -optimize-grammar build (real vs real) and both vs the reference: same success, same consumed prefix, same action invocations (id, pos, text, flat label values) in the same order, same flat value (regrouping of action-less structure is invisible, action-made values are not). Non-trivial = the optimizer changed the emitted grammar (expression count differs) and the input is matched or backtracks.",
 		Assumptions: []string{"E1 loader", "flat value rendering: concatenated matched bytes, action-made values kept"},
 		Run:         runC09,
 	})
@@ -137,6 +137,12 @@ func runC09(c *ShardCtx) {
 		}
 		for _, g := range sameNameLabelFamily() {
 			if c.Expired("same-name label family") {
+				return
+			}
+			one(g, [][]string{nil})
+		}
+		for _, g := range wideChoiceFamily() {
+			if c.Expired("wide choice family") {
 				return
 			}
 			one(g, [][]string{nil})
@@ -323,6 +329,43 @@ func recoveryOptFamily() []*peg.Grammar {
 			peg.Recover(peg.Recover(peg.Seq(lit("a"), peg.Throw("m")), peg.Ref("B"), "l"), peg.Ref("C"), "m"),
 		} {
 			out = append(out, &peg.Grammar{Rules: []*peg.Rule{{Name: "S", Expr: body.Clone()}, {Name: "B", Expr: lf()}, {Name: "C", Expr: peg.Choice(lit("c"), peg.Throw("l"))}}})
+		}
+	}
+	return out
+}
+
+// wideChoiceFamily: choices of 4-5 alternatives in which a mergeable pair
+// (one-rune literals / classes, also arising from an inlined leaf rule) sits
+// at every position among unmergeable alternatives.
+func wideChoiceFamily() []*peg.Grammar {
+	lit := peg.Lit
+	var out []*peg.Grammar
+	merge := [][2]func() *peg.Expr{
+		{func() *peg.Expr { return lit("a") }, func() *peg.Expr { return lit("b") }},
+		{func() *peg.Expr { return peg.Cls(false, false, "a") }, func() *peg.Expr { return lit("b") }},
+		{func() *peg.Expr { return peg.Ref("A") }, func() *peg.Expr { return peg.Cls(false, false, "b") }},
+	}
+	others := []func() *peg.Expr{
+		func() *peg.Expr { return peg.Seq(lit("c"), lit("a")) }, func() *peg.Expr { return peg.Action(0, lit("c")) }, func() *peg.Expr { return peg.Ref("T") }, func() *peg.Expr { return lit("ca") },
+	}
+	for _, m := range merge {
+		for pos := 0; pos <= 3; pos++ {
+			for o1 := range others {
+				for o2 := range others {
+					for o3 := range others {
+						if o1 == o2 || o2 == o3 {
+							continue
+						}
+						alts := []*peg.Expr{others[o1](), others[o2](), others[o3]()}
+						var all []*peg.Expr
+						all = append(all, alts[:pos]...)
+						all = append(all, m[0](), m[1]())
+						all = append(all, alts[pos:]...)
+						g := &peg.Grammar{Rules: []*peg.Rule{{Name: "S", Expr: peg.Plus(peg.Choice(all...))}, {Name: "A", Expr: lit("a")}, {Name: "T", Expr: peg.Seq(lit("c"), lit("b"))}}}
+						out = append(out, g)
+					}
+				}
+			}
 		}
 	}
 	return out
